@@ -68,3 +68,13 @@ int NAME(int (*out)(char), const char *fn, char *buffer, size_t n, const char *f
 }
 ENGINE(fx_engine_good, { invoke_safe_str_constraint_handler("illegal %n", 0, 22); return -1; })
 ENGINE(fx_engine_bad, { int *ip = va_arg(va, int *); *ip = (int)idx; format++; break; })
+/* the library's own bounded search with a bound that is not the format's length */
+#include <stddef.h>
+int _strstr_s_chk(char *dest, size_t dmax, const char *src, size_t slen, char **substringp, size_t destbos, size_t srcbos) {
+    (void)dmax; (void)slen; (void)destbos; (void)srcbos; *substringp = strstr(dest, src); return *substringp ? 0 : 409;
+}
+int fx_bounded(char *out, size_t dmax, const char *fmt, va_list ap) {
+    char *p;
+    if (_strstr_s_chk((char *)fmt, dmax, "%n", 2, &p, (size_t)-1, (size_t)-1) == 0) { invoke_safe_str_constraint_handler("n", 0, 22); return -22; }
+    return vsnprintf(out, dmax, fmt, ap);
+}
